@@ -1,7 +1,7 @@
 /-
   SparseV.Model.Validate — the argument validation of the public operations (property C18), following
   the code: `_utils.normalize_axis` (tuple branch over the GENERATED integer branch), `COO.transpose`,
-  `COO.reshape`, `COO.__init__` + `SparseArray.__init__`, `_utils.check_compressed_axes`,
+  `COO.reshape`, `COO.__init__` + `SparseArray.__init__`, `_utils.check_compressed_axes`, `GCXS.__init__` (triple form),
   and the NumPy side of each decision (what NumPy rejects).  Pure decisions: shapes in, verdict out.
 -/
 import SparseV.Model.Basic
@@ -141,6 +141,80 @@ def checkCompressedAxes (ndim : Nat) (c : Option (List Int)) : Except Err Unit :
     else if c.any (fun a => decide (a < 0 ∨ a ≥ ndim)) then .error .value
     else if c = [] then .error .value      -- `min(())` raises ValueError
     else .ok ()
+
+/-! ### `GCXS((data, indices, indptr), shape, compressed_axes)` -/
+
+/-- `reduce(operator.mul, (int(shape[a]) for a in compressed_axes), 1)` -/
+def compressedExtent (sh : List Int) (c : List Int) : Int := iprod (c.map fun a => sh.getD a.toNat 0)
+
+/-- `reduce(operator.mul, (int(sh) for a, sh in enumerate(shape) if a not in compressed_axes), 1)` -/
+def uncompressedExtent (sh : List Int) (c : List Int) : Int :=
+  iprod ((List.range sh.length).filterMap fun i => if c.contains (Int.ofNat i) then none else some (sh.getD i 0))
+
+/-- `np.any(indptr[1:] < indptr[:-1])` is false -/
+def nondecreasing : List Int → Bool
+  | a :: b :: t => decide (a ≤ b) && nondecreasing (b :: t)
+  | _ => true
+
+/-- the constructor with a triple, `data` of `dataNdim` dimensions and (when 1-d) length `dataLen`, 1-d integer `indices` and `indptr`,
+in the order of the code (after 5753560 and 748e5d3): `shape is None`; `check_compressed_axes(len(shape), compressed_axes)`;
+a 1-d shape forgets its `compressed_axes`; `data.ndim != 1`; the shape's extents are non-negative integers;
+`len(shape) >= 1 and len(data) != len(indices)`; for two or more axes: `n_compressed` (iterating `compressed_axes`: `None` is a
+`TypeError` there), `len(indptr) != n_compressed + 1`, `indptr[0] != 0 or indptr[-1] != len(indices)`, `indptr` decreasing somewhere;
+for one or more axes and non-empty `indices`: `min(indices) < 0 or max(indices) >= n_uncompressed`.
+A 0-d shape reaches none of the tests on the three arrays.  Within a row `indices` may be unsorted or repeated: nothing looks. -/
+def gcxsCtor (dataNdim dataLen : Nat) (indices indptr : List Int) (shape : Option (List Int)) (caxes : Option (List Int)) :
+    Except Err Unit :=
+  match shape with
+  | none => .error .value
+  | some sh =>
+    match checkCompressedAxes sh.length caxes with
+    | .error e => .error e
+    | .ok () =>
+      if dataNdim ≠ 1 then .error .value
+      else if sh.any (· < 0) then .error .value
+      else if sh.length = 0 then .ok ()
+      else if dataLen ≠ indices.length then .error .value
+      else if sh.length = 1 then
+        (if indices.any (fun v => decide (v < 0 ∨ v ≥ sh.getD 0 0)) then .error .value else .ok ())
+      else
+        match caxes with
+        | none => .error .type                      -- `for a in compressed_axes` with `None`
+        | some c =>
+          if (indptr.length : Int) ≠ compressedExtent sh c + 1 then .error .value
+          else if indptr.head? ≠ some 0 ∨ indptr.getLast? ≠ some (indices.length : Int) then .error .value
+          else if ¬ nondecreasing indptr then .error .value
+          else if indices.any (fun v => decide (v < 0 ∨ v ≥ uncompressedExtent sh c)) then .error .value
+          else .ok ()
+
+/-- the contract of the triple form: non-negative extents, admissible `compressed_axes` (required for two or more axes), one datum per
+index; for two or more axes one index pointer per compressed row plus one, running from `0` to `len(indices)` without ever decreasing
+(`Pairwise (· ≤ ·)`); every index within the extent of the uncompressed axes.  A 0-d array stores its only element as the fill value:
+no data, no indices.  A 1-d array has no index pointers (whatever is passed is ignored).  NOT part of the contract, by design of the
+format's constructor: the order of the indices within a row and their distinctness (`GCXS(([1,2],[1,1],[0,2]), shape=(1,2),
+compressed_axes=[0])` is accepted; duplicates add up in `todense()`). -/
+def gcxsRows (indices indptr : List Int) (sh : List Int) : Option (List Int) → Prop
+  | none => False
+  | some c => (indptr.length : Int) = compressedExtent sh c + 1 ∧ indptr.head? = some 0 ∧
+      indptr.getLast? = some (indices.length : Int) ∧ indptr.Pairwise (· ≤ ·) ∧ ∀ v ∈ indices, 0 ≤ v ∧ v < uncompressedExtent sh c
+
+instance (indices indptr sh : List Int) (c : Option (List Int)) : Decidable (gcxsRows indices indptr sh c) := by
+  cases c <;> unfold gcxsRows <;> infer_instance
+
+def gcxsContract (dataLen : Nat) (indices indptr : List Int) (sh : List Int) (caxes : Option (List Int)) : Prop :=
+  (∀ d ∈ sh, 0 ≤ d) ∧ checkCompressedAxes sh.length caxes = .ok () ∧
+  (sh.length = 0 → dataLen = 0 ∧ indices = []) ∧
+  (1 ≤ sh.length → dataLen = indices.length) ∧
+  (sh.length = 1 → ∀ v ∈ indices, 0 ≤ v ∧ v < sh.getD 0 0) ∧
+  (2 ≤ sh.length → gcxsRows indices indptr sh caxes)
+
+instance (dataLen : Nat) (indices indptr sh : List Int) (caxes : Option (List Int)) : Decidable (gcxsContract dataLen indices indptr sh caxes) := by
+  unfold gcxsContract; infer_instance
+
+/-- the region where the constructor still accepts malformed input: the 0-d shape with stored data -/
+def ExcludedZeroDim (dataLen : Nat) (indices : List Int) (sh : List Int) : Prop := sh = [] ∧ ¬ (dataLen = 0 ∧ indices = [])
+instance (dataLen : Nat) (indices : List Int) (sh : List Int) : Decidable (ExcludedZeroDim dataLen indices sh) := by
+  unfold ExcludedZeroDim; infer_instance
 
 /-- one advanced (integer-array) index entry: `sanitize_index`/`check_index` (array branch) -/
 def checkIndexArr (xs : List Int) (dim : Int) : Except Err Unit :=
